@@ -54,7 +54,7 @@ def main():
     finally:
         shutil.rmtree(scratch, ignore_errors=True)
         subprocess.run(['git', '-C', REPO, 'worktree', 'prune'])
-    out = os.path.join(VERIF, 'seeded', 'RESULTS.json')
+    out = os.environ.get('SEEDED_RESULTS', os.path.join(VERIF, 'seeded', 'RESULTS.json'))
     old = {}
     key = 'seed%s' % os.environ.get('VERIF_SEED', '0')
     if os.path.exists(out):
